@@ -263,11 +263,11 @@ PROPS["C12"] = {
                     "(one model step per store/lock/provider operation)",
                     "no lock-expiry step (the property's proviso); the expiry boundary is shown as a concrete trace (expiry_boundary)"],
     "trusted_base": ["the scheduler in the driver (a request blocked on a held lock is not schedulable)"],
-    "level_text": "c12_refresh_chain (against single-use refresh tokens a chain of refreshes of any length never presents a consumed token, whichever responses carry an ID token); c12_once is proved for ANY number of requests and ANY interleaving (inductive three-phase invariant over the transition "
+    "level_text": "c12_write_before_validate_refuted / c12_validate_before_write_safe (providers without refresh support, Model/StampRace.v: the re-stamped session is written before it is validated, so a concurrent request can be served without validation - known finding F22 - while with validation first nobody is served in any interleaving; compared with the real proxy on every explored schedule); c12_refresh_chain (against single-use refresh tokens a chain of refreshes of any length never presents a consumed token, whichever responses carry an ID token); c12_once is proved for ANY number of requests and ANY interleaving (inductive three-phase invariant over the transition "
                   "system of Model/Refresh.v): at most one refresh, none with a consumed token, every finished request served with the "
                   "refreshed session; c12_never_stale, c12_seq_never_stale, c12_run_reachable; the model is run on every schedule the Go "
                   "scheduler explores and the per-schedule outcome (refresh counts, each request's result and upstream token) compared.",
-    "level_note": "_partial: preemption inside a store operation, Redis' own atomicity, the redislock implementation and wall-clock lock TTL "
+    "level_note": "_partial: for providers without refresh support the clause is false under concurrency (known finding F22, proved as the refutation witness); preemption inside a store operation, Redis' own atomicity, the redislock implementation and wall-clock lock TTL "
                   "are runtime behaviour the model cannot exhibit; they are covered only by the thorough tier's concurrent run.",
 }
 
